@@ -1882,13 +1882,21 @@ class Module(ABC):
                 ]
                 rows = self._nodes_in_view
                 if len(users) > 0:
-                    still_used = self.base.nodes.loc[rows, users].any(axis=1).to_numpy()
+                    still_used = (
+                        self.base.nodes.loc[rows, users]
+                        .fillna(False)
+                        .astype(bool)
+                        .any(axis=1)
+                        .to_numpy()
+                    )
                     rows = rows[~still_used]
                 self.base.nodes.loc[rows, col] = float("nan")
             self.base.nodes.loc[self._nodes_in_view, name] = False
 
             # only delete cols if no other comps in the module have the same channel
-            if np.all(~self.base.nodes[name]):
+            # The flag column can have dtype `object` (e.g. in a network of cells with
+            # different channels), for which `~` is not the logical negation.
+            if not self.base.nodes[name].fillna(False).astype(bool).any():
                 self.base.channels.pop(all_channel_names.index(name))
                 # The current (e.g. `i_K`) and columns can be shared with other channels.
                 if channel.current_name not in [c.current_name for c in other_channels]:
